@@ -77,7 +77,7 @@ class C14(Property):
             cfg = dict(rnd.choice([c for c in CONFIGS if c["cls"] == "esri"]))
         ops = []
         for _ in range(rnd.randint(3, 10)):
-            ops.append(rnd.choice(["read_shape", "read_size", "read_points", "copy", "deepcopy", "set_cells", "set_points", "read_all", "to_unstructured"]))
+            ops.append(rnd.choice(["read_shape", "read_size", "read_points", "copy", "deepcopy", "set_cells", "set_points", "read_all", "to_unstructured", "cast_and_change"]))
         if cfg["cls"] == "esri":
             # a refused change to a location the class does not support, in the middle of the history
             ops.insert(rnd.randint(1, len(ops)), "set_points")
@@ -199,6 +199,11 @@ class C14(Property):
                 out.count("grid_copies")
             elif op == "to_unstructured":
                 _ = g.to_unstructured()
+            elif op == "cast_and_change":
+                # the cast is an object of its own: changing it must not reach the grid it was made from (or later casts)
+                u = g.to_unstructured()
+                u.data_location = "POINTS" if cur["location"] == "CELLS" else "CELLS"
+                out.count("casts_changed_afterwards")
             elif op in ("set_cells", "set_points"):
                 loc = "CELLS" if op == "set_cells" else "POINTS"
                 if cur["cls"] == "esri" and loc == "POINTS":
@@ -251,7 +256,7 @@ class C14(Property):
         return out
 
     def coverage_gaps(self, counters, tier):
-        need = ["configs_checked", "elements_checked", "cells_checked", "unstructured_casts", "history_steps", "histories_with_location_change", "histories_with_copies_and_location_change", "invalid_location_refused"]
+        need = ["configs_checked", "elements_checked", "cells_checked", "unstructured_casts", "history_steps", "histories_with_location_change", "histories_with_copies_and_location_change", "invalid_location_refused", "casts_changed_afterwards"]
         return [f"{k} never observed" for k in need if not counters.get(k)]
 
 
